@@ -39,3 +39,13 @@ package shared
 //@   ensures 1 <= result && result <= 4
 //@   ensures r >= 128 ==> (forall k int :: 0 <= k && k < result ==> p[k] >= 128)
 //@   ensures 0 <= r && r < 128 ==> result == 1 && int32(p[0]) == r
+
+// utf8.DecodeRuneInString: width and the ASCII fast path (an ASCII first byte decodes to itself; a non-ASCII
+// first byte never decodes to an ASCII code point).
+//@ func unicode/utf8.DecodeRuneInString
+//@   trusted
+//@   opt pure
+//@   ensures len(s) == 0 ==> result0 == 65533 && result1 == 0
+//@   ensures len(s) > 0 ==> 1 <= result1 && result1 <= 4 && result1 <= len(s)
+//@   ensures len(s) > 0 && s[0] < 128 ==> result0 == int32(s[0]) && result1 == 1
+//@   ensures len(s) > 0 && s[0] >= 128 ==> result0 >= 128 && result0 <= 1114111
